@@ -1,3 +1,5 @@
+#[cfg(mos_verif_threads)]
+use mos_simrt::std_shim as std;
 use crate::parser::{
     AddressModifier, AddressingMode, ArgItem, BinaryOp, Block, Expression, ExpressionFactor,
     Identifier, IdentifierPath, ImportArgs, ImportAs, InterpolatedString, InterpolatedStringItem,
